@@ -88,8 +88,8 @@ def run(ctx):
         cnt = lin.poly(da, da.args(call)[1], subst=False) if da.k(call) == "Call" else {}
         mw = [s for s in paths.stores(da) if s["path"] == "d->max_words"]
         es = P.records["dictword_s"]["size"] if "dictword_s" in P.records else None
-        ok = len(mw) == 1 and es is not None and cnt == lin.p_mul(lin.poly(da, mw[0]["rhs"], subst=False), lin.p_const(es)) and paths.same_block(da, mw[0]["node"], re_[0]["node"])
-        ctx.check(d3, ok, key(da, "capacity"), da.where(re_[0]["node"]), "max_words (%s) does not match the reallocated size (%s bytes, %s per entry)" % (da.canon(mw[0]["rhs"], subst=False) if mw else "?", lin.p_str(cnt), es))
+        ok = len(mw) == 1 and es is not None and cnt == lin.p_mul(lin.new_value(da, mw[0]), lin.p_const(es)) and paths.same_block(da, mw[0]["node"], re_[0]["node"])
+        ctx.check(d3, ok, key(da, "capacity"), da.where(re_[0]["node"]), "max_words (%s) does not match the reallocated size (%s bytes, %s per entry)" % (lin.p_str(lin.new_value(da, mw[0])) if mw else "?", lin.p_str(cnt), es))
         g = paths.guarded(da, re_[0]["node"], lambda fn, cc, pol: paths.rel(fn, cc, pol, subst=False) == ("d->max_words", "<=", "d->n_word"))
         ctx.check(d3, g, key(da, "grow-when-full"), da.where(re_[0]["node"]), "table is not grown exactly when n_word >= max_words")
     st = {}
